@@ -169,7 +169,7 @@ Proof.
   exact (fun2core_correct_fragment_lemma capture_witness _ args n o (proj1 capture_witness_fixed_lemma)
            (proj1 (proj2 guard_accepts_capture_witness)) (proj1 guard_accepts_capture_witness) Hr Hf).
 Qed.
-(* the call-to-main witness (former finding, repaired in /repo by <commitmain>) is INSIDE the guard too, and by the
+(* the call-to-main witness (former finding, repaired in /repo by f929eb7) is INSIDE the guard too, and by the
    THEOREM every final source run of it is reproduced by the Core machine on its translation *)
 Example guard_accepts_call_main_witness :
   prog_guard call_main_witness = true /\ NoDup (map fdname (fcpdefs call_main_witness)) /\
